@@ -205,13 +205,25 @@ done
 // several goroutines symbolizing through ONE addr2line-backed ObjFile: the tool is a line-oriented pipe, so a
 // query and its sentinel must not interleave with another caller's; every answer must be the caller's own
 func a2lPart(rounds int) {
+	pipeToolPart("addr2line", a2lScript, rounds)
+	pipeToolPart("llvm-symbolizer", llvmScript, rounds)
+}
+
+const llvmScript = `#!/bin/sh
+while read t f a; do
+  x=${a#0x}
+  echo "{\"Address\":\"$a\",\"ModuleName\":\"$f\",\"Symbol\":[{\"Line\":7,\"Column\":0,\"FunctionName\":\"s$x\",\"FileName\":\"src.c\",\"StartLine\":0}]}"
+done
+`
+
+func pipeToolPart(tool, script string, rounds int) {
 	dir, err := os.MkdirTemp("", "c20-a2l-")
 	if err != nil {
 		run.Infra(err.Error())
 		return
 	}
 	defer os.RemoveAll(dir)
-	os.WriteFile(filepath.Join(dir, "addr2line"), []byte(a2lScript), 0o755)
+	os.WriteFile(filepath.Join(dir, tool), []byte(script), 0o755)
 	// a minimal ET_EXEC file: header + one executable PT_LOAD at vaddr 0
 	var b bytes.Buffer
 	h := elf.Header64{Type: uint16(elf.ET_EXEC), Machine: uint16(elf.EM_X86_64), Version: 1, Phoff: 64, Ehsize: 64, Phentsize: 56, Phnum: 1, Shentsize: 64}
@@ -224,15 +236,15 @@ func a2lPart(rounds int) {
 	os.Setenv("PATH", dir) // no llvm-symbolizer, no nm: the plain addr2line path
 	defer os.Setenv("PATH", oldPath)
 	bu := &binutils.Binutils{}
-	bu.SetTools("addr2line:" + dir)
+	bu.SetTools(tool + ":" + dir)
 	f, err := bu.Open(exe, 0x10000, 0x20000, 0, "")
 	if err != nil {
-		run.Note("addr2line part skipped: " + err.Error())
+		run.Infra(tool + " part: " + err.Error())
 		return
 	}
 	defer f.Close()
 	if fr, err := f.SourceLine(0x10010); err != nil || len(fr) == 0 || fr[0].Func != "s10" {
-		run.Note(fmt.Sprintf("addr2line part skipped: the scripted tool does not answer as expected: %v %v", fr, err))
+		run.Infra(fmt.Sprintf("%s part: the scripted tool does not answer as expected: %v %v", tool, fr, err))
 		return
 	}
 	for round := 0; round < rounds; round++ {
@@ -243,7 +255,7 @@ func a2lPart(rounds int) {
 				defer wg.Done()
 				defer func() {
 					if x := recover(); x != nil {
-						run.Violate("binutils", "addr2line-panic", fmt.Sprint(x), nil, nil)
+						run.Violate("binutils", tool+"-panic", fmt.Sprint(x), nil, nil)
 					}
 				}()
 				for k := 0; k < 40; k++ {
@@ -251,14 +263,14 @@ func a2lPart(rounds int) {
 					fr, err := f.SourceLine(0x10000 + q)
 					want := fmt.Sprintf("s%x", q)
 					if err != nil || len(fr) != 1 || fr[0].Func != want {
-						run.Violate("binutils", "addr2line-crossed-answers", fmt.Sprintf("SourceLine(%#x) on a shared ObjFile returned %v %v under concurrency; alone it returns [%s]", 0x10000+q, fr, err, want), nil, nil)
+						run.Violate("binutils", tool+"-crossed-answers", fmt.Sprintf("SourceLine(%#x) on a shared ObjFile returned %v %v under concurrency; alone it returns [%s]", 0x10000+q, fr, err, want), nil, nil)
 						return
 					}
 				}
 			}(g)
 		}
 		wg.Wait()
-		run.Count(fmt.Sprintf("addr2line|%d", round%4))
+		run.Count(fmt.Sprintf("%s|%d", tool, round%4))
 	}
 }
 
